@@ -1,4 +1,4 @@
-import SonicModel.Lemmas.DeMap
+import SonicModel.Lemmas.DeValue
 /-! the typed deserializer against the reference semantics: induction over the strict grammar, whole documents -/
 namespace Sonic
 namespace De
